@@ -229,7 +229,7 @@ def known_finding_lines(prop, tree):
 def write_evidence(prop, tier, base_seed, mod, batch, wall, violations, known_hits, extra):
     res = batch.results
     nontrivial_runs = [r for r in res if r['nontrivial']]
-    skeletons = set(r['skeleton'] for r in nontrivial_runs)
+    skeletons = set(r['skeleton'] + '|' + ';'.join(r['nontrivial']) for r in nontrivial_runs)
     keys = set()
     for r in nontrivial_runs:
         keys.update(r['nontrivial'])
